@@ -44,6 +44,10 @@ Restrict(f, S) == [x \in (DOMAIN f) \cap S |-> f[x]]
 AsTags(rules) == [x \in {rules[i].name : i \in DOMAIN rules} |->
                     rules[CHOOSE i \in DOMAIN rules : rules[i].name = x].tag]
 
+\* generated rules carry their body tag in the description ("tag-N") and a
+\* salience that is a fixed function of the tag
+SalOf(t) == ((t \div 10) % 10) - 3     \* tag = version * 100 + salience code * 10 + rule index
+
 -----------------------------------------------------------------------------
 (* Construction *)
 PNewCore(mn, mx, rules, m) ==
@@ -75,9 +79,13 @@ PNewTryCore(mn, mx, m, textok, ok) ==
 ApiKeys == {"kd"}
 ApiVal == 0 - 7
 
-ArriveCore(q, keys, names, fail, failmay) ==
+\* ord: what the request's execution model promises about the order in which its rule bodies start
+\*   "sort" non-increasing salience   "head" the first one has the highest salience   "none" nothing
+ArriveCore(q, keys, names, fail, failmay, ord) ==
   /\ q \notin DOMAIN rq
+  /\ ord \in {"sort", "head", "none"}
   /\ rq' = (q :> [st |-> "arrived", inst |-> -1, keys |-> keys, names |-> names, fail |-> fail, failmay |-> failmay,
+                  ord |-> ord, first |-> 0,
                   lo |-> done, ran |-> <<>>, wasCleared |-> cleared]) @@ rq
   /\ UNCHANGED <<pmin, pmax, free, holder, transit, dc, cur, cleared, inst, vers, done, pend, model, upq, fin>>
 
@@ -118,7 +126,9 @@ ArgPairCore(a, b) == a = b /\ UNCHANGED pvars
 RuleRunCore(q, r, t) ==
   /\ q \in DOMAIN rq /\ rq[q].st = "holding"
   /\ r \notin DOMAIN rq[q].ran
-  /\ rq' = [rq EXCEPT ![q].ran = (r :> t) @@ @]
+  /\ rq[q].ord = "sort" => \A x \in DOMAIN rq[q].ran : SalOf(rq[q].ran[x]) >= SalOf(t)
+  /\ (rq[q].ord = "head" /\ rq[q].ran # <<>>) => SalOf(rq[q].first) >= SalOf(t)
+  /\ rq' = [rq EXCEPT ![q].ran = (r :> t) @@ @, ![q].first = IF rq[q].ran = <<>> THEN t ELSE @]
   /\ UNCHANGED <<pmin, pmax, free, holder, transit, dc, cur, cleared, inst, vers, done, pend, model, upq, fin>>
 
 Release(q, h, t, d) ==   \* helper: holder, transit, dc after q gave its instance back
@@ -318,9 +328,6 @@ SetModelCore(m, ok) ==
   /\ model' = IF ok THEN m ELSE model
   /\ UNCHANGED <<pmin, pmax, free, holder, transit, dc, rq, cur, cleared, inst, vers, done, pend, upq, fin>>
 
-\* generated rules carry their body tag in the description ("tag-N") and a
-\* salience that is a fixed function of the tag
-SalOf(t) == ((t \div 10) % 10) - 3     \* tag = version * 100 + salience code * 10 + rule index
 
 \* queries (only between updates): kind, argument, answer (numbers; booleans as 0/1)
 QueryCore(kind, arg, res, err) ==
